@@ -160,6 +160,20 @@ fn private_is_dirty(
                     dirty = Dirtiness::Dirty;
                 }
             }
+            DepMode::Modified
+                if f2.is_generated()
+                    && !already_checked.contains(&f2.id())
+                    && crate::cycles::check(f2.id().to_string()).is_ok()
+                    && ptx.state().is_locked_now(f2.id())? =>
+            {
+                // Somebody else (not the script that asked for this check: a
+                // dependency on that one is a cycle, found below) is building
+                // f2 right now: its row and its dependency rows are being
+                // rewritten and say nothing yet.  Have it dealt with first
+                // (that waits for its lock), then look again.
+                log_debug!("{}-- uncertain ({:?} is being built)\n", depth, f2.id());
+                dirty = Dirtiness::NeedTargets(vec![f2]);
+            }
             DepMode::Modified => {
                 let sub = {
                     let mut depth = depth.to_string();
